@@ -781,6 +781,9 @@ class Interp:
             b = t[i]
             if b == 0xC0: out.extend(self.render(fa.args[ai])); ai += 1; i += 1
             elif b < 0x80: out.extend(decode_utf8(t[i+1:i+1+b])); i += 1 + b
+            elif b & 0xF7 == 0xC0 and b & 0x08:
+                # explicit argument position: two bytes (little endian) follow
+                idx = t[i+1] | (t[i+2] << 8); out.extend(self.render(fa.args[idx])); ai = idx + 1; i += 3
             else: raise Unsupported(f'format template byte {b:#x}')
         return out
     def render(self, a):
@@ -1086,6 +1089,43 @@ class Interp:
         if meth == 'collect':
             return self.collect(it, fname)
         if meth == 'count': return len(self.drain(it))
+        if meth == 'enumerate': return SeqIter([Agg('tuple', None, [i, x]) for i, x in enumerate(self.drain(it))])
+        if meth == 'zip': return SeqIter([Agg('tuple', None, [x, y]) for x, y in zip(self.drain(it), self.drain(self.into_iter(args[1])))])
+        if meth == 'chain': return SeqIter(self.drain(it) + self.drain(self.into_iter(args[1])))
+        if meth == 'rev': return SeqIter(list(reversed(self.drain(it))))
+        if meth == 'skip': return SeqIter(self.drain(it)[args[1]:])
+        if meth == 'take': return SeqIter(self.drain(it)[:args[1]])
+        if meth == 'step_by': return SeqIter(self.drain(it)[::args[1]])
+        if meth == 'filter': return SeqIter([x for x in self.drain(it) if self.truth(self.call_value(args[1], [Ptr(Cell(x))]))])
+        if meth == 'filter_map':
+            out = []
+            for x in self.drain(it):
+                r = self.call_value(args[1], [x])
+                if r.variant == 1: out.append(r.fields[0])
+            return SeqIter(out)
+        if meth == 'flat_map' or meth == 'flatten':
+            out = []
+            for x in self.drain(it): out.extend(self.drain(self.into_iter(self.call_value(args[1], [x]) if meth == 'flat_map' else x)))
+            return SeqIter(out)
+        if meth == 'find':
+            for x in self.drain(it):
+                if self.truth(self.call_value(args[1], [Ptr(Cell(x))])): return Agg('Option', 1, [x])
+            return Agg('Option', 0, [])
+        if meth == 'fold':
+            acc = args[1]
+            for x in self.drain(it): acc = self.call_value(args[2], [acc, x])
+            return acc
+        if meth == 'for_each':
+            for x in self.drain(it): self.call_value(args[1], [x])
+            return ()
+        if meth in ('last', 'nth'):
+            xs = self.drain(it); i = len(xs) - 1 if meth == 'last' else args[1]
+            return Agg('Option', 1, [xs[i]]) if 0 <= i < len(xs) else Agg('Option', 0, [])
+        if meth in ('max', 'min', 'sum'):
+            xs = [x.get() if isinstance(x, Ptr) else x for x in self.drain(it)]
+            if meth == 'sum': return sum(xs)
+            if not xs: return Agg('Option', 0, [])
+            return Agg('Option', 1, [max(xs) if meth == 'max' else min(xs)])
         return NotImplemented
     def std_call(self, fname, f, base, args):
         g = lambda x: x.get() if isinstance(x, Ptr) else x
@@ -1114,6 +1154,76 @@ class Interp:
             while cs and py_is_ws(cs[0]): cs.pop(0)
             while cs and py_is_ws(cs[-1]): cs.pop()
             return RStr(cs)
+        if e('str::repeat'): return RString(list(gg(args[0]).chars) * args[1])
+        if e('str::starts_with') or e('str::ends_with') or e('str::contains'):
+            a = gg(args[0]); b = gg(args[1])
+            if isinstance(b, int): b = RStr([b])
+            if has_sym(a) or has_sym(b): raise Unsupported('symbolic ' + base)
+            sa, sb = show(a.chars), show(b.chars)
+            return sa.startswith(sb) if e('starts_with') else sa.endswith(sb) if e('ends_with') else sb in sa
+        if e('str::to_uppercase') or e('str::to_lowercase'):
+            a = gg(args[0])
+            if has_sym(a): raise Unsupported('symbolic ' + base)
+            t = show(a.chars); return mkstr(t.upper() if e('to_uppercase') else t.lower())
+        if e('String::clear'): g(args[0]).chars.clear(); return ()
+        if e('String::pop'):
+            v = g(args[0]); return Agg('Option', 1, [v.chars.pop()]) if v.chars else Agg('Option', 0, [])
+        if e('String::insert'): g(args[0]).chars.insert(args[1], args[2]); return ()
+        if e('String::truncate'): del g(args[0]).chars[args[1]:]; return ()
+        if e('String::with_capacity'): return RString([])
+        if e('str::char_indices'): return SeqIter([Agg('tuple', None, [i, c]) for i, c in enumerate(gg(args[0]).chars)])
+        if e('Vec::insert'): g(args[0]).items.insert(args[1], args[2]); return ()
+        if e('Vec::remove'):
+            v = g(args[0])
+            if args[1] >= len(v.items): raise Panic('removal index out of bounds')
+            return v.items.pop(args[1])
+        if e('Vec::clear'): g(args[0]).items.clear(); return ()
+        if e('Vec::truncate'): del g(args[0]).items[args[1]:]; return ()
+        if e('Vec::extend_from_slice'): g(args[0]).items.extend(deep_clone(x) for x in self.drain(gg(args[1]))); return ()
+        if e('Vec::append'):
+            src = g(args[1]); g(args[0]).items.extend(src.items); src.items.clear(); return ()
+        if e('Vec::reverse') or e('slice::reverse'): gg(args[0]).items.reverse(); return ()
+        if e('slice::first') or e('slice::last'):
+            sl = gg(args[0]); sl = sl if isinstance(sl, Slice) else Slice(sl, 0, len(sl.items))
+            if len(sl) == 0: return Agg('Option', 0, [])
+            return Agg('Option', 1, [Ptr(Cell(sl.vec)).sub(sl.lo if e('first') else sl.hi - 1)])
+        if e('slice::contains') or e('Vec::contains'):
+            sl = gg(args[0]); items = sl.items if isinstance(sl, RVec) else sl.vec.items[sl.lo:sl.hi]
+            for x in items:
+                if self.truth(self.equal(x, args[1])): return True
+            return False
+        if e('slice::split_at'):
+            sl = gg(args[0]); sl = sl if isinstance(sl, Slice) else Slice(sl, 0, len(sl.items))
+            if args[1] > len(sl): raise Panic('split_at out of bounds')
+            return Agg('tuple', None, [Slice(sl.vec, sl.lo, sl.lo + args[1]), Slice(sl.vec, sl.lo + args[1], sl.hi)])
+        if e('slice::split_first') or e('slice::split_last'):
+            sl = gg(args[0]); sl = sl if isinstance(sl, Slice) else Slice(sl, 0, len(sl.items))
+            if len(sl) == 0: return Agg('Option', 0, [])
+            if e('split_first'): return Agg('Option', 1, [Agg('tuple', None, [Ptr(Cell(sl.vec)).sub(sl.lo), Slice(sl.vec, sl.lo + 1, sl.hi)])])
+            return Agg('Option', 1, [Agg('tuple', None, [Ptr(Cell(sl.vec)).sub(sl.hi - 1), Slice(sl.vec, sl.lo, sl.hi - 1)])])
+        if e('Option::unwrap_or'): return args[0].fields[0] if args[0].variant == 1 else args[1]
+        if e('Option::unwrap_or_default'):
+            if args[0].variant == 1: return args[0].fields[0]
+            raise Unsupported('unwrap_or_default on None')
+        if e('Option::and_then'): return self.call_value(args[1], [args[0].fields[0]]) if args[0].variant == 1 else args[0]
+        if e('Option::is_some_and'): return args[0].variant == 1 and self.truth(self.call_value(args[1], [args[0].fields[0]]))
+        if e('Option::is_none_or'): return args[0].variant == 0 or self.truth(self.call_value(args[1], [args[0].fields[0]]))
+        if e('Option::map_or'): return self.call_value(args[2], [args[0].fields[0]]) if args[0].variant == 1 else args[1]
+        if e('Option::or'): return args[0] if args[0].variant == 1 else args[1]
+        if e('Option::take'):
+            p = args[0]; old = p.get(); p.set(Agg('Option', 0, [])); return old
+        if e('Option::as_deref') or e('Option::as_mut'):
+            v = args[0]
+            if g(v).variant == 0: return Agg('Option', 0, [])
+            inner = g(v).fields[0]
+            return Agg('Option', 1, [RStr(inner.chars) if isinstance(inner, RString) else (v.sub(0) if isinstance(v, Ptr) else Ptr(Cell(inner)))])
+        if e('Option::filter'): return args[0] if args[0].variant == 1 and self.truth(self.call_value(args[1], [Ptr(Cell(args[0].fields[0]))])) else Agg('Option', 0, [])
+        if e('Result::ok'): return Agg('Option', 1, [args[0].fields[0]]) if args[0].variant == 0 else Agg('Option', 0, [])
+        if e('Result::map_err'): return args[0] if args[0].variant == 0 else Agg('Result', 1, [self.call_value(args[1], [args[0].fields[0]])])
+        if e('Result::map'): return Agg('Result', 0, [self.call_value(args[1], [args[0].fields[0]])]) if args[0].variant == 0 else args[0]
+        if e('Result::unwrap_or'): return args[0].fields[0] if args[0].variant == 0 else args[1]
+        if e('Result::unwrap_or_else'): return args[0].fields[0] if args[0].variant == 0 else self.call_value(args[1], [args[0].fields[0]])
+        if e('Result::and_then'): return self.call_value(args[1], [args[0].fields[0]]) if args[0].variant == 0 else args[0]
         if e('Peekable::peek'):
             it = gg(args[0])
             if it.pos >= len(it.chars): return Agg('Option', 0, [])
@@ -1184,6 +1294,21 @@ class Interp:
         # ---- maps / sets / heaps
         mk = re.match(r'^(?:.*::)?(HashMap|BTreeMap|HashSet|BTreeSet|BinaryHeap)::(\w+)$', base)
         if mk: return self.container_call(mk.group(1), mk.group(2), args)
+        mk = re.match(r'^(?:.*::)?(?:hash_map::|btree_map::|map::)?(?:entry::)?Entry::(\w+)$', base)
+        if mk:
+            ent = args[0]; mp, key = ent.fields
+            name = mk.group(1)
+            if name in ('or_insert', 'or_insert_with', 'or_default'):
+                x = self.map_find(mp, key)
+                if x is None:
+                    val = args[1] if name == 'or_insert' else self.call_value(args[1], []) if name == 'or_insert_with' else 0
+                    mp.items.append([key, val]); x = mp.items[-1]
+                return Ptr(Cell(x)).sub(1)
+            if name == 'and_modify':
+                x = self.map_find(mp, key)
+                if x is not None: self.call_value(args[1], [Ptr(Cell(x)).sub(1)])
+                return ent
+            raise Unsupported('Entry::' + name)
         if 'panic' in base or e('unwrap_failed') or e('expect_failed'): raise Panic('explicit panic: ' + base)
         raise Unsupported('call ' + fname)
     def container_call(self, kind, name, args):
@@ -1228,6 +1353,24 @@ class Interp:
         if name == 'is_empty': return len(mp.items) == 0
         if name == 'len': return len(mp.items)
         if name == 'clear': mp.items.clear(); return ()
+        if name == 'entry': return Agg('MapEntry', None, [mp, args[1]])
+        if name in ('get_or_insert_with',): raise Unsupported(kind + '::' + name)
+        if name == 'extend':
+            for item in self.drain(args[1]):
+                if isset: self.map_insert(mp, item, None)
+                else: self.map_insert(mp, item.fields[0], item.fields[1])
+            return ()
+        if name in ('first', 'last', 'first_key_value', 'last_key_value') and kind.startswith('BTree'):
+            order = self.iter_order(mp)
+            if not order: return Agg('Option', 0, [])
+            e = order[0 if name.startswith('first') else -1]
+            return Agg('Option', 1, [Ptr(Cell(e)).sub(0) if isset else Agg('tuple', None, [Ptr(Cell(e)).sub(0), Ptr(Cell(e)).sub(1)])])
+        if name == 'retain':
+            keep = []
+            for e in list(mp.items):
+                a = [Ptr(Cell(e)).sub(0)] if isset else [Ptr(Cell(e)).sub(0), Ptr(Cell(e)).sub(1)]
+                if self.truth(self.call_value(args[1], a)): keep.append(e)
+            mp.items[:] = keep; return ()
         if name == 'from':
             src = args[0]
             out = RMap(kind)
